@@ -309,6 +309,8 @@ pub fn alphabet() -> Vec<Sym> {
         Sym::Raw("stream_malformed", r#"stream {"window":[1,"#),
         Sym::Raw("query_window", r#"query {"window":[0,2]}"#),
         Sym::Raw("query_filters", r#"query {"window":[0,2],"filters":[{"type":0,"ecu":"ECU2"}]}"#),
+        // a query whose window is wider than the matches of the log (only used in flow searches)
+        Sym::Raw("query_filters_wide", r#"query {"window":[0,10],"filters":[{"type":0,"ecu":"ECU1"}]}"#),
         Sym::WithId("stop_last", "stop", Last, None),
         Sym::WithId("stop_first", "stop", First, None),
         Sym::WithId("stop_stale", "stop", Stale, None),
@@ -316,6 +318,8 @@ pub fn alphabet() -> Vec<Sym> {
         Sym::WithId("stop_nonnumeric", "stop", NonNumeric, None),
         Sym::WithId("stop_missing", "stop", Missing, None),
         Sym::WithId("chgwin_last", "stream_change_window", Last, Some("1,4")),
+        // a window that ends below the number of matches a filtered query may have collected already
+        Sym::WithId("chgwin_last_shrink", "stream_change_window", Last, Some("0,1")),
         Sym::WithId("chgwin_last_nobody", "stream_change_window", Last, None),
         Sym::WithId("chgwin_last_malformed", "stream_change_window", Last, Some("x")),
         Sym::WithId("chgwin_first", "stream_change_window", First, Some("1,4")),
@@ -519,7 +523,7 @@ impl Session {
                     "open_missing_file" | "open_malformed_json" | "open_noarg" | "open_badcollect" => Some("err"),
                     "close" | "pause" | "resume" => Some(if self.model.open { "ok" } else { "err" }),
                     "stream_nobody" | "stream_malformed" => Some("err"),
-                    "stream_default" | "stream_window_bin" | "stream_filters" | "query_window" | "query_filters" => {
+                    "stream_default" | "stream_window_bin" | "stream_filters" | "query_window" | "query_filters" | "query_filters_wide" => {
                         if !self.model.open {
                             Some("err")
                         } else if self.model.collect == "All" {
@@ -546,7 +550,7 @@ impl Session {
                     (IdRef::Stale | IdRef::Never | IdRef::NonNumeric | IdRef::Missing, _) => Some("err"),
                     (_, "stop") => Some("ok"),
                     (_, "stream_change_window") => match body {
-                        Some("1,4") => {
+                        Some("1,4") | Some("0,1") => {
                             // window changes of one_pass streams are documented as unsupported: class not prescribed
                             let one_pass = used_id.and_then(|id| self.last_state["streams"].as_array().and_then(|a| a.iter().find(|s| s["id"].as_u64() == Some(id)).map(|s| s["one_pass"] == true))).unwrap_or(false);
                             if one_pass {
@@ -725,7 +729,7 @@ impl Prop for C15 {
         // (start history, depth, alphabet of the search). The searches over the full alphabet share one seen-set; the
         // "flow" searches go deeper over the session-flow commands only (pause/resume/stream/stop/ticks) and keep their own
         // seen-set, so that states already met at a shallower depth are expanded again
-        let full: Arc<Vec<Sym>> = Arc::new(sigma.iter().filter(|s| s.name() != "open_plugins").cloned().collect());
+        let full: Arc<Vec<Sym>> = Arc::new(sigma.iter().filter(|s| !["open_plugins", "query_filters_wide", "chgwin_last_shrink"].contains(&s.name().as_str())).cloned().collect());
         let sub = |names: &[&str]| -> Option<Arc<Vec<Sym>>> { Some(Arc::new(names.iter().map(|n| sigma.iter().find(|s| &s.name() == n).unwrap_or_else(|| panic!("symbol {n}")).clone()).collect())) };
         let flow_depth = ctx.tier.pick(4, 6);
         let seeds: Vec<(Vec<Sym>, usize, Option<Arc<Vec<Sym>>>)> = vec![
@@ -741,6 +745,9 @@ impl Prop for C15 {
             (by(&["open_plugins", "stream_default", "T3"]), ctx.tier.pick(2, 3), None),
             (by(&["open_onepass", "stream_onepass", "resume", "T3"]), flow_depth, sub(&["pause", "resume", "stream_onepass", "stream_onepass_filters", "query_window", "stop_last", "close", "T1", "T3", "Tinf"])),
             (by(&["open_ok", "stream_default", "T3"]), flow_depth - 1, sub(&["pause", "resume", "stream_default", "stream_filters", "query_window", "stop_last", "chgwin_last", "T1", "T3", "Tinf"])),
+            // a filtered query that has collected matches but is still running: window changes (also to a window that
+            // ends below the matches collected so far) while further messages arrive
+            (by(&["open_ok", "query_filters_wide", "T3"]), ctx.tier.pick(3, 4), sub(&["chgwin_last_shrink", "chgwin_last", "query_filters_wide", "stream_filters", "stop_last", "pause", "resume", "T1", "T3", "Tinf"])),
         ];
         'seeds: for (seed_no, (seed, seed_depth, sub_sigma)) in seeds.iter().enumerate() {
         let sigma = sub_sigma.clone().unwrap_or_else(|| full.clone());
